@@ -719,7 +719,17 @@ def _is_zero_for_constant(ctx, bound):
         if isinstance(l, ast.Call) and isinstance(r, ast.Call) and {call_name(l), call_name(r)} == {'max', 'min'} \
                 and [ast.dump(a) for a in l.args] == [ast.dump(a) for a in r.args]:
             return True
-    return False
+    # definitely not zero: another numeric literal; anything else (a parameter of a helper, a computed value) is not derived
+    c_ = const_value(e)
+    if isinstance(c_, (int, float)) and not isinstance(c_, bool):
+        return False
+    if isinstance(e, ast.Name) and env is not None:
+        # a parameter of the helper that builds the dict: its default, when the call does not pass it
+        fn_ = getattr(env, 'fn', None)
+        dflt = getattr(fn_, 'defaults', {}).get(e.id) if fn_ is not None else None
+        if dflt is not None and const_value(dflt) in (0, 0.0):
+            return None
+    return None
 
 
 def _is_the_constant(e):
